@@ -234,24 +234,4 @@ mod verif_kani {
         assert!(s.x1 == x + l && s.y1 == y + t && s.x2 == x + w - r && s.y2 == y + h - b);
     }
 
-    fn trbl_ratio(ratio: f32) {
-        let (x, y, w, h) = (dy(), dy(), dy_pos(), dy_pos());
-        let trbl = TrblLength::new(Length::Ratio(ratio), Length::Ratio(ratio), Length::Ratio(ratio), Length::Ratio(ratio));
-        let mut g = BoundingBox::new(x, y, x + w, y + h);
-        g.expand_trbl_length(trbl);
-        let base = w.max(h) * ratio;
-        assert!(g.x1 == x - base && g.y2 == y + h + base);
-        let mut s = BoundingBox::new(x, y, x + w, y + h);
-        s.shrink_trbl_length(trbl);
-        let sb = w.min(h) * ratio;
-        assert!(s.x1 == x + sb && s.y2 == y + h - sb);
-    }
-    #[kani::proof]
-    fn k_trbl_ratio_25() {
-        trbl_ratio(0.25)
-    }
-    #[kani::proof]
-    fn k_trbl_ratio_50() {
-        trbl_ratio(0.5)
-    }
 }
